@@ -2,6 +2,12 @@
 """Regenerates MANIFEST.json from the table below (kept in one place so it stays valid)."""
 import json, subprocess
 CHECKS = {
+ "C08": dict(level="exploration", tech="online shadow-model monitor over random call traces on the real ReplicationFetcher (guarded wrapper), virtual time by deadline ageing, event capture",
+             text="Random traces of advertisements/arrivals/completions/range+fullness updates/timer expiries are executed on the real fetcher; after every call returned fetches, queue snapshots and emitted events are judged by ten oracle clauses plus a bounded-progress phase. Exploration: the interleaving space is unbounded; the oracle is per-step and exact for the clauses it encodes.",
+             note="Virtual time shifts the stored Instant deadlines through a guarded hook; store contents change only via notified puts; liveness restated as bounded progress (ceil(U/20)+7 rounds).", ref="DESIGN.md §4 C08"),
+ "C13": dict(level="exploration", tech="mutation-based oracle over real signed quotes/proofs (ed25519 libp2p identities), clock-bracketed expiry samples",
+             text="Authentically signed quotes and proofs are mutated field by field and in combination and the real verification/expiry/history functions are judged against the statement; held = no accepted forgery, no mis-classified timestamp on the cases listed.",
+             note="Only ed25519 identities exist in this build; sub-second timestamp changes are unsigned by design and not judged; 'if' directions are sanity controls (inconclusive, not violation).", ref="DESIGN.md §4 C13"),
  "C16": dict(level="exploration", tech="reference-model oracle (independent decimal/256-bit arithmetic) over generated amounts, strings and pairs run against the real AttoTokens; overflow-checks build",
              text="Every generated amount/string/pair is executed against the real Display/FromStr/checked_add/checked_sub and judged by an independent byte-array reference; held = no disagreement on the cases listed in evidence. Exploration is the right level: the input space is unbounded, the oracle is exact.",
              note="Trusts ruint's byte (de)serialisation and the harness' own reference arithmetic; strings with an empty integer part or surplus zero fraction digits are not judged.", ref="DESIGN.md §4 C16"),
